@@ -736,7 +736,7 @@ func (p *Parser) evaluateImports(ctx context) ([]Statement, error) {
 				if foundUsedFuncs, exists := p.usedFuncs[funcName]; !exists {
 					p.usedFuncs[funcName] = usedFuncs
 				} else {
-					for _, usedFunc := range foundUsedFuncs {
+					for _, usedFunc := range usedFuncs {
 						if !slices.Contains(foundUsedFuncs, usedFunc) {
 							p.usedFuncs[funcName] = append(p.usedFuncs[funcName], usedFunc)
 						}
